@@ -348,7 +348,7 @@ def _run_stream(world: _World, cfg: dict, items: list[dict], ext_plan: str, with
 INVS = ["InvSendsBounded", "InvResendOnlyAfterRetryable", "InvSleepWithinBackoffMax", "InvExchangeSentOnce",
         "InvCancelSentOnce", "InvSane"]
 QUICK_SLICES = ("main", "statuses", "stream")
-THOROUGH_SLICES = ("ra_depth", "status_breadth", "backoff_breadth", "stream_full")
+THOROUGH_SLICES = ("main", "ra_depth", "status_breadth", "backoff_breadth", "statuses", "stream_full")
 
 
 def _consts(slices=("main",), pts: str = "hi") -> dict:
@@ -411,7 +411,7 @@ def run(ctx: Ctx) -> None:
     #     additionally explores both endpoints of every window over all slices.
     slices = QUICK_SLICES if quick else THOROUGH_SLICES
     if not quick:
-        model_check(ctx, wd, "Retry", "mc-ends", _consts(QUICK_SLICES + THOROUGH_SLICES[1:], "ends"), INVS)
+        model_check(ctx, wd, "Retry", "mc-ends", _consts(QUICK_SLICES + THOROUGH_SLICES, "ends"), INVS)
 
     # (2) enumerate behaviours, replay
     uni = _Uniform()
@@ -435,7 +435,7 @@ def run(ctx: Ctx) -> None:
                 outs = [e["o"] for e in mlog if e["e"] == "send"]
                 n_beh += 1
                 if cfg["mode"] == "retry":
-                    nvar = 1 if quick else (2 if len(outs) >= 3 else 3)
+                    nvar = 1 if (quick or len(outs) >= 2) else 2
                     if quick and len(outs) <= 1:
                         nvar = 2
                     for v in range(nvar):
